@@ -206,6 +206,20 @@ def running_balance(ctx, rng, conn, case, mon):
                 ctx.violation('c12.balance_not_prefix_sum', f'{text}: row {n} balance (target {b}) = {r[b]} ; prefix sum of position = {run}',
                               dict(case, statement=text))
                 return
+    # balance referenced only inside a function call, after an operand that is NULL on some rows: the row counts all the same
+    first = rng.choice(['cost_currency', 'currency(price)', 'str(entry_meta("nothing-of-the-kind"))', 'payee', 'cost_label'])
+    frows = fetch(ctx, conn, f'SELECT position, {first} AS c, only({first}, balance) AS o {sel}', case)
+    if frows is not None:
+        ctx.count('obs.balance_inside_function_cases')
+        frun = inventory.Inventory()
+        for n, r in enumerate(frows):
+            frun.add_position(r[0])
+            ctx.count('obs.balance_inside_function_null_operand_rows' if r[1] is None else 'obs.balance_inside_function_rows')
+            exp = None if r[1] is None else frun.get_currency_units(r[1])
+            if r[2] != exp:
+                ctx.violation('c12.balance_inside_function', f'only({first}, balance) {sel}: row {n} gives {r[2]} ; the prefix sum of position holds {exp} '
+                              f'({first} = {r[1]!r})', dict(case, statement=f'SELECT position, {first} AS c, only({first}, balance) AS o {sel}'))
+                return
     # last(balance) == sum(position) of the same selection
     agg = fetch(ctx, conn, f'SELECT last(balance) AS b, sum(position) AS s, count(*) AS n {sel}', case)
     if agg is None:
